@@ -29,6 +29,7 @@ PINS = json.loads((Path(__file__).resolve().parents[2] / "translate" / "pins_C07
 K_REENTRY = "handle-fork-key:limit-wait-reentry"
 K_ORDER = "handle-fork-key:sibling-arrival-order"
 K_SHARED = "value-hash:shared-object:executed-vs-replayed-twin"
+K_PENDING = "pending-expr:duplicate-child-job-depends-on-completion-order"   # NOT a known finding (seed C07d)
 K_REJECT = "failed-call:recorded-children:sibling-completion-order"
 K_CROSS = "handle-fork-key:cross-parent-arrival-order"      # NOT a known finding: one fork counter per execution
 
@@ -69,6 +70,13 @@ W4 = [{"n": 0, "body": l(call(1), call(2)), "limits": None}, {"n": 0, "body": l(
 W4B = [{"n": 0, "body": l(call(1), call(2)), "limits": None}, {"n": 0, "body": l(call(3, call(4))), "limits": None},
        {"n": 0, "body": l(call(3, call(4)), c(0)), "limits": None}, {"n": 1, "body": c(8), "limits": None},
        {"n": 0, "body": h(0), "limits": None}]
+
+
+# main() = [x, cond(check(), x, 0)] with x = expensive(1): x is demanded eagerly and again when check() has a value
+W5 = [{"n": 0, "body": l(call(1, c(1)), ("cond", call(2), call(1, c(1)), c(0))), "limits": None},
+      {"n": 1, "body": c(10), "limits": None}, {"n": 0, "body": c(1), "limits": None}]
+# main() = seq([x, x])
+W5B = [{"n": 0, "body": ("seq", (call(1, c(1)), call(1, c(1)))), "limits": None}, {"n": 1, "body": c(10), "limits": None}]
 
 
 def rejected_parent_runs():
@@ -114,6 +122,8 @@ WITNESSES = [
      [({}, [0, 1, 3, 2]), ({}, [0, 2, 3, 1])], K_CROSS),
     ("W4b main=[P(),Q()], P=[use(open())], Q=[use(open()),0]: P's subtree first vs Q's", W4B,
      [({}, [0, 1, 4, 3, 2]), ({}, [0, 2, 4, 3, 1])], K_CROSS),
+    ("W5 main=[x,cond(check(),x,0)], x=expensive(1): check completes first vs expensive first", W5,
+     [({}, [0, 2, 1]), ({}, [0, 1, 2])], K_PENDING),
 ]
 
 
@@ -258,9 +268,11 @@ class Check(PropertyCheck):
                 "C07_refuted_limits_e7_as_shipped", "C07_reentry_inert_fixed",
                 "C07_refuted_sibling_order_as_shipped", "C07_sibling_order_remains_fixed",
                 "C07_refuted_per_execution_counter", "C07_per_execution_witness_per_parent",
-                "C07_per_execution_witness_linear"]
-    extra_modules = ["Model.Timing"]
+                "C07_per_execution_witness_linear", "C07_one_child_job_per_expression",
+                "C07_child_jobs_schedule_independent", "C07_refuted_pending_expr_released_early"]
+    extra_modules = ["Model.Timing", "Model.PendingExpr"]
     variant = None
+    pending_uf = None
     assumptions = [
         "hashes are idealised as the structures they hash (injective, and a function of the value's structure); "
         "the second half is FALSE for values holding one container object twice (pickle back references) — "
@@ -281,6 +293,8 @@ class Check(PropertyCheck):
             text, cfg, _ = tr_timing.translate(pins=PINS)
         except astutil.TranslateError as e:
             raise TranslateError(str(e))
+        cfg = dict(cfg)
+        self.pending_uf = cfg.pop("pending_until_finalized")
         shipped = {"pre_every_entry": True, "read_after_incr": True, "root_order": 0, "key_reuse": True,
                    "forks_per_parent": True}
         fixed = dict(shipped, pre_every_entry=False)
@@ -307,6 +321,12 @@ class Check(PropertyCheck):
         else:
             self.variant = "other"
             tie = "Lemma C07_tie : gen_cfg = shipped \\/ gen_cfg = fixed.\nProof. (left; reflexivity) || (right; reflexivity). Qed.\n"
+        if self.pending_uf:
+            tie += ("(* a _pending_expr entry lives until the parent job is finalized: C07_one_child_job_per_expression applies *)\n"
+                    "Lemma C07_tie_pending : gen_pending_until_finalized = true.\nProof. reflexivity. Qed.\n")
+        else:
+            tie += ("(* entries are released when their job concludes: C07_refuted_pending_expr_released_early applies *)\n"
+                    "Lemma C07_tie_pending_released_early : gen_pending_until_finalized = false.\nProof. reflexivity. Qed.\n")
         GEN.mkdir(exist_ok=True)
         path = GEN / "C07Gen.v"
         path.write_text(text + tie)
@@ -323,7 +343,7 @@ class Check(PropertyCheck):
         self.programs = []
         try:
             for n in range(nprog):
-                mode = ["none", "linear", "shared", "cross"][n % 4]
+                mode = ["none", "linear", "shared", "cross", "lazy"][n % 5]
                 prog = vm_c07.gen_program(self.rng, mode, resources=("r0", "r1"))
                 runs = []
                 # both orders of any two concurrently running jobs of different tasks: lowest task first / highest first
@@ -380,6 +400,8 @@ class Check(PropertyCheck):
         items = [(m, pr, rs) for m, pr, rs in self.programs] + [("witness", pr, rs) for _, pr, rs, _ in self.witness_runs]
         items.append(("root-handle", ROOTP, self.root_runs))
         for k, (mode, prog, runs) in enumerate(items):
+            if vm_c07.has_lazy(prog):
+                continue            # cond / seq: not part of the Timing machine (oracle + _pending_expr machine below)
             if not all(modelled(r) for r in runs):
                 skipped_other += 1
                 continue
@@ -406,6 +428,35 @@ class Check(PropertyCheck):
         self.ob("correspondence", "nothing outside the modelled fragment was generated", skipped_other == 0,
                 f"{skipped_other} programs had events the model does not have")
         self.failing_programs = [items[idx[i]] for i in failing]
+        # ---- the _pending_expr machine (Model/PendingExpr.v): for every parent job of every run, the demands for
+        # task expressions and the conclusions of their jobs, in order; the model says which demands create a job
+        pterms, pidx = [], []
+        uf = "true" if self.pending_uf else "false"
+        nparents = nlater = 0
+        for k, (mode, prog, runs) in enumerate(items):
+            cases = []
+            for r in runs:
+                for pj, evs in sorted(r.pending.items()):
+                    evl = "[" + "; ".join((f"Demand {e[1]}%nat" if e[0] == "demand" else f"Conclude {e[1]}%nat") for e in evs) + "]"
+                    exp = "[" + "; ".join("true" if e[2] else "false" for e in evs if e[0] == "demand") + "]"
+                    cases.append(f"({evl}, {exp})")
+                    nparents += 1
+                    seen_conclude = False
+                    for e in evs:
+                        seen_conclude = seen_conclude or e[0] == "conclude"
+                        nlater += e[0] == "demand" and seen_conclude
+            if cases:
+                pterms.append(f"forallb (fun p => list_bool_eqb (new_job_trace {uf} (fst p)) (snd p)) [" + "; ".join(cases) + "]")
+                pidx.append(k)
+        pok, pfailing, pdiags = run_bool_cases("c07p", ["Model.PendingExpr"], "", pterms, chunk=10)
+        pdetail = "\n".join(pdiags)
+        for i in pfailing[:3]:
+            mode, prog, runs = items[pidx[i]]
+            pdetail += f"\nmismatch ({mode}): {[td['body'] for td in prog]}"
+        self.stat("_pending_expr machine", "parent jobs replayed", nparents)
+        self.stat("_pending_expr machine", "demands arriving after a sibling job concluded", nlater)
+        self.ob("correspondence", f"{nparents} parent jobs: which demand for a task expression creates a child job is what the "
+                f"_pending_expr machine says (entries live until the parent is finalized: {uf})", pok and not pfailing, pdetail)
 
     # ------------------------------------------------------------------
     def oracle(self):
@@ -445,6 +496,11 @@ class Check(PropertyCheck):
                 {"kind": "rejected-parent", "program": "root=catch(P(),ValueError,recover); P=[ok(),boom()]",
                  "runs": [{"complete first": "ok"}, {"complete first": "boom"}],
                  "call nodes": [[h[:8] for h in x[2]] for x in rj]}))
+        w5 = [len({c07_run.graph_signature(r) for r in runs}) > 1 for n, _, runs, k in self.witness_runs if k == K_PENDING]
+        if self.pending_uf is not None:
+            self.ob("tie-witness", "the _pending_expr witness (W5) " + ("agrees" if self.pending_uf else "differs")
+                    + " on the real Scheduler, as the translated entry lifetime says", all(w5) != bool(self.pending_uf),
+                    f"translator: until_finalized={self.pending_uf}; witness differs: {w5}")
         w4 = [len({c07_run.graph_signature(r) for r in runs}) > 1 for n, _, runs, k in self.witness_runs if k == K_CROSS]
         if self.variant == "per-execution":
             self.ob("tie-witness", "C07_refuted_per_execution_counter reproduces on the real Scheduler (W4, W4b)", all(w4),
